@@ -97,12 +97,115 @@ def reflect(E, st, x, memo):
     return r
 
 
+def _const_value(t):
+    """python value of a constant z3 term (int, bool, byte string), or raise KeyError"""
+    t = z3.simplify(t)
+    if z3.is_int_value(t):
+        return t.as_long()
+    if z3.is_true(t):
+        return True
+    if z3.is_false(t):
+        return False
+    if z3.is_seq(t):
+        out = bytearray()
+
+        def walk(x):
+            k = x.decl().kind() if z3.is_app(x) else None
+            if k == z3.Z3_OP_SEQ_EMPTY:
+                return
+            if k == z3.Z3_OP_SEQ_UNIT and z3.is_bv_value(x.arg(0)):
+                out.append(x.arg(0).as_long())
+                return
+            if k == z3.Z3_OP_SEQ_CONCAT:
+                for y in x.children():
+                    walk(y)
+                return
+            raise KeyError('not a constant sequence')
+        walk(t)
+        return bytes(out)
+    raise KeyError('not a constant')
+
+
+def _native_table():
+    """executable interpretations of uninterpreted spec primitives, used ONLY to evaluate a clause on concrete states during a native
+    replay (never in a proof): spec modules may define NATIVE = {'name': python function}"""
+    import importlib
+    import pkgutil
+    import math
+    # the engine's own uninterpreted symbols (definitions of the notations they stand for)
+    tab = {'be': lambda b: int.from_bytes(b, 'big'), 'le': lambda b: int.from_bytes(b, 'little'),
+           'i2osp': lambda x, n: x.to_bytes(n, 'big'), 'i2le': lambda x, n: x.to_bytes(n, 'little'),
+           'pow2': lambda n: 2 ** n if 0 <= n <= 1 << 20 else (_ for _ in ()).throw(ValueError()),
+           'ipow': lambda b, e: b ** e if 0 <= e <= 1 << 16 else (_ for _ in ()).throw(ValueError()),
+           'modpow': lambda b, e, m: pow(b, e, m), 'bitlen': lambda x: x.bit_length(), 'gcd': lambda a, b: math.gcd(a, b),
+           'modinv': lambda a, m: pow(a, -1, m), 'rev': lambda b: b[::-1], 'rep': lambda b, n: b * n if n <= 1 << 20 else (_ for _ in ()).throw(ValueError()),
+           'lstrip0': lambda b: b.lstrip(b'\x00'), 'bitand': lambda a, b: a & b, 'bitor': lambda a, b: a | b, 'bitxor': lambda a, b: a ^ b,
+           'bitop_BitAnd': lambda a, b: a & b, 'bitop_BitOr': lambda a, b: a | b, 'bitop_BitXor': lambda a, b: a ^ b}
+    try:
+        import spec
+        for m in pkgutil.iter_modules(spec.__path__):
+            try:
+                mod = importlib.import_module('spec.' + m.name)
+            except Exception:      # noqa
+                continue
+            for k, fn in (getattr(mod, 'NATIVE', None) or {}).items():
+                tab['%s.%s' % (m.name, k)] = fn
+    except Exception:      # noqa
+        pass
+    return tab
+
+
+_NATIVE = None
+
+
+def _fold_natives(g):
+    """replace applications of uninterpreted spec primitives to constant arguments by their native value, to a fixed point"""
+    global _NATIVE
+    if _NATIVE is None:
+        _NATIVE = _native_table()
+    if not _NATIVE:
+        return g
+    for _ in range(50):
+        subs = []
+        seen = set()
+        todo = [g]
+        while todo:
+            x = todo.pop()
+            if x.get_id() in seen or not z3.is_app(x):
+                continue
+            seen.add(x.get_id())
+            if x.decl().kind() == z3.Z3_OP_UNINTERPRETED and x.num_args() > 0 and x.decl().name() in _NATIVE:
+                try:
+                    args = [_const_value(a) for a in x.children()]
+                except KeyError:
+                    todo.extend(x.children())
+                    continue
+                try:
+                    v = _NATIVE[x.decl().name()](*args)
+                except Exception:      # noqa  (outside the primitive's domain: leave it uninterpreted)
+                    continue
+                if isinstance(v, bool):
+                    subs.append((x, z3.BoolVal(v)))
+                elif isinstance(v, int):
+                    subs.append((x, z3.IntVal(v)))
+                elif isinstance(v, (bytes, bytearray)):
+                    subs.append((x, bytes_const(bytes(v))))
+                continue
+            todo.extend(x.children())
+        if not subs:
+            return g
+        g = z3.simplify(z3.substitute(g, *subs))
+    return g
+
+
 def _concrete_bool(g):
     """the clause evaluated on concrete pre/post states must fold to a truth value; otherwise (uninterpreted primitive, symbol
     that has no executable definition) the replay cannot decide"""
     if isinstance(g, bool):
         return g
     g = z3.simplify(g)
+    if not (z3.is_true(g) or z3.is_false(g)):
+        g = _fold_natives(g)
     if z3.is_true(g):
         return True
     if z3.is_false(g):
